@@ -20,6 +20,12 @@ def unit_targets():
             ("PolyhedralProjection.inverse", "a5.projections.polyhedral", "PolyhedralProjection.inverse"),
             ("PentagonShape.contains_point", "a5.geometry.pentagon", "PentagonShape.contains_point"),
             ("PentagonShape.get_center", "a5.geometry.pentagon", "PentagonShape.get_center"),
+            ("authalic.forward", "a5.core.coordinate_transforms", "authalic.forward"),
+            ("authalic.inverse", "a5.core.coordinate_transforms", "authalic.inverse"),
+            ("from_lonlat", "a5.core.coordinate_transforms", "from_lonlat"),
+            ("to_lonlat", "a5.core.coordinate_transforms", "to_lonlat"),
+            ("gnomonic.forward", "a5.core.cell", "_dodecahedron.gnomonic.forward"),
+            ("gnomonic.inverse", "a5.core.cell", "_dodecahedron.gnomonic.inverse"),
             ("to_cartesian", "a5.core.coordinate_transforms", "to_cartesian"),
             ("to_spherical", "a5.core.coordinate_transforms", "to_spherical"),
             ("face_to_barycentric", "a5.core.coordinate_transforms", "face_to_barycentric"),
@@ -41,6 +47,20 @@ def make_call(inp, mn, qual):
     parameter names/annotations; the same symbolic inputs are used for every call with equal tag-less
     names (the input symbols are declared once per name)."""
     m = importlib.import_module(mn)
+    if qual.split(".")[0] in ("authalic", "_dodecahedron"):
+        obj = m
+        for part in qual.split(".")[:-1]:
+            obj = getattr(obj, part)      # the module-level singleton itself (shared between callers)
+        meth = getattr(obj, qual.split(".")[-1])
+        if qual.startswith("authalic"):
+            a = inp("phi", 1)[0]
+            return (lambda: meth(a)), [a]
+        a = tuple(inp("sph", 2))
+        return (lambda: meth(a)), [a]
+    if qual in ("from_lonlat", "to_lonlat"):
+        fn = getattr(m, qual)
+        a = tuple(inp("ll", 2))
+        return (lambda: fn(a)), [a]
     if "." not in qual:
         fn = getattr(m, qual)
         short = mn.split(".")[-1]
